@@ -15,7 +15,7 @@ RULE = ("hostile byte strings (truncated pushes of every width, PUSHDATA4 with l
         "(a) through the real evaluator in-process with catch_unwind on debug AND release builds x 8 coins: no panic, no Error pattern; "
         "(b) placed in scriptPubKey / scriptSig / witness items of otherwise valid chains, all five callbacks run on debug and release: "
         "exit status 0, no panic text, and every output equals the reference model; for hostile scriptPubKeys the values derived "
-        "from the hostile script itself (its type, address, payload line) are masked, they belong to C05/C06/C16. Well-formed standard scripts are part of the hostile content, followed by innocent outputs that reuse their pushed bytes in another role (echo outputs): those rows must be the model's. distinct = (field, family, coin rules, build, callback) signatures")
+        "from the hostile script itself (its type, address, payload line) are masked, they belong to C05/C06/C16. Well-formed standard scripts are part of the hostile content, followed by innocent outputs that reuse their pushed bytes in another role (echo outputs): those rows must be the model's. A run that hangs (no CPU time, all threads asleep for 10 s) is reported like an abnormal exit; chains place warning-triggering scripts after printed OP_RETURN rows. distinct = (field, family, coin rules, build, callback) signatures")
 
 FIELDS = ["spk", "sig", "wit"]
 
